@@ -290,13 +290,13 @@ def lastInit (iw : Int) : List (Nat × Nat) → Int
   | [] => iw
   | (id, v) :: rest => lastInit (if id = settingInitialWindowSize then (v : Int) else iw) rest
 
-theorem applySettings_initWin (o : Dir α) (ord : Nat → List Nat) (k : Nat) (kvs : List (Nat × Nat)) :
-    (applySettings o ord k kvs).1.initWin = lastInit o.initWin kvs := by
+theorem applyEach_initWin (o : Dir α) (ord : Nat → List Nat) (k : Nat) (kvs : List (Nat × Nat)) :
+    (applyEach o ord k kvs).1.initWin = lastInit o.initWin kvs := by
   induction kvs generalizing o k with
   | nil => rfl
   | cons kv rest ih =>
     obtain ⟨id, v⟩ := kv
-    simp only [H2.applySettings, lastInit]
+    simp only [H2.applyEach, lastInit]
     split
     · rw [ih, setInitWin_initWin]
     · split
@@ -305,13 +305,45 @@ theorem applySettings_initWin (o : Dir α) (ord : Nat → List Nat) (k : Nat) (k
         · exact ih _ _
         · exact ih _ _
 
-theorem applySettings_connSlack (o : Dir α) (ord : Nat → List Nat) (k : Nat) (kvs : List (Nat × Nat)) :
-    (applySettings o ord k kvs).1.connSlack = o.connSlack := by
+theorem lastInit_indep (x y : Int) (t : List (Nat × Nat))
+    (h : t.any (fun kv => kv.1 == settingInitialWindowSize) = true) : lastInit x t = lastInit y t := by
+  induction t generalizing x y with
+  | nil => simp at h
+  | cons kv rest ih =>
+    obtain ⟨i, v⟩ := kv
+    simp only [lastInit]
+    by_cases hi : i = settingInitialWindowSize
+    · simp [hi]
+    · simp only [hi, if_false]
+      apply ih
+      simpa [hi] using h
+
+/-- skipping the superseded values (`relay.applySettings`) leaves the same initial window in force -/
+theorem lastInit_inForce (iw : Int) (kvs : List (Nat × Nat)) : lastInit iw (inForce kvs) = lastInit iw kvs := by
+  induction kvs generalizing iw with
+  | nil => rfl
+  | cons kv rest ih =>
+    obtain ⟨i, v⟩ := kv
+    simp only [inForce]
+    split
+    · rename_i hc
+      rw [ih]
+      simp only [lastInit]
+      by_cases hi : i = settingInitialWindowSize
+      · have hany := hc.2
+        rw [hi] at hany
+        simp only [hi, if_true]
+        exact lastInit_indep _ _ rest hany
+      · simp [hi]
+    · simp only [lastInit]; exact ih _
+
+theorem applyEach_connSlack (o : Dir α) (ord : Nat → List Nat) (k : Nat) (kvs : List (Nat × Nat)) :
+    (applyEach o ord k kvs).1.connSlack = o.connSlack := by
   induction kvs generalizing o k with
   | nil => rfl
   | cons kv rest ih =>
     obtain ⟨id, v⟩ := kv
-    simp only [H2.applySettings]
+    simp only [H2.applyEach]
     split
     · rw [ih, setInitWin_connSlack]
     · split
@@ -321,13 +353,13 @@ theorem applySettings_connSlack (o : Dir α) (ord : Nat → List Nat) (k : Nat) 
         · exact ih _ _
 
 /-- a SETTINGS frame keeps `slack − initWin` of every stream -/
-theorem applySettings_slack (o : Dir α) (ord : Nat → List Nat) (k : Nat) (kvs : List (Nat × Nat)) (t : Nat) :
-    (applySettings o ord k kvs).1.slack t - (applySettings o ord k kvs).1.initWin = o.slack t - o.initWin := by
+theorem applyEach_slack (o : Dir α) (ord : Nat → List Nat) (k : Nat) (kvs : List (Nat × Nat)) (t : Nat) :
+    (applyEach o ord k kvs).1.slack t - (applyEach o ord k kvs).1.initWin = o.slack t - o.initWin := by
   induction kvs generalizing o k with
   | nil => rfl
   | cons kv rest ih =>
     obtain ⟨id, v⟩ := kv
-    simp only [H2.applySettings]
+    simp only [H2.applyEach]
     split
     · rw [ih, setInitWin_slack, setInitWin_initWin]
       omega
@@ -337,14 +369,14 @@ theorem applySettings_slack (o : Dir α) (ord : Nat → List Nat) (k : Nat) (kvs
         · exact ih _ _
         · exact ih _ _
 
-theorem Fifo.applySettings {o : Dir α} {H : Hist α} (h : Fifo o H) (ord : Nat → List Nat) (k : Nat)
+theorem Fifo.applyEach {o : Dir α} {H : Hist α} (h : Fifo o H) (ord : Nat → List Nat) (k : Nat)
     (kvs : List (Nat × Nat)) :
-    Fifo (applySettings o ord k kvs).1 (H.addOut (applySettings o ord k kvs).2) := by
+    Fifo (applyEach o ord k kvs).1 (H.addOut (applyEach o ord k kvs).2) := by
   induction kvs generalizing o H k with
   | nil => exact h
   | cons kv rest ih =>
     obtain ⟨id, v⟩ := kv
-    simp only [H2.applySettings]
+    simp only [H2.applyEach]
     split
     · simp only []
       rw [Hist.addOut_append]
@@ -457,7 +489,7 @@ theorem Room.windowUpdate {d : Dir α} {s : Nat} (h : Room d s) (order : List Na
 /-- the action of a frame on the relay of the opposite direction (`r.peer.…` in `processFrame`) -/
 def otherEffect (o : Dir α) (ord : Nat → List Nat) : Op α → Dir α × List (QFrame α)
   | .windowUpdate s n => o.windowUpdate (ord 0) s n
-  | .settings kvs => applySettings o ord 0 kvs
+  | .settings kvs => applySettings o ord kvs
   | _ => (o, [])
 
 theorem process_other_eq (d o : Dir α) (ord : Nat → List Nat) (op : Op α) :
@@ -520,9 +552,9 @@ def noInitOp : Op α → Bool
   | .settings kvs => initCount kvs == 0
   | _ => true
 
-theorem applySettings_flowEq (o : Dir α) (ord : Nat → List Nat) (k : Nat) (kvs : List (Nat × Nat))
+theorem applyEach_flowEq (o : Dir α) (ord : Nat → List Nat) (k : Nat) (kvs : List (Nat × Nat))
     (h : initCount kvs = 0) :
-    FlowEq o (applySettings o ord k kvs).1 ∧ (applySettings o ord k kvs).2 = [] := by
+    FlowEq o (applyEach o ord k kvs).1 ∧ (applyEach o ord k kvs).2 = [] := by
   induction kvs generalizing o k with
   | nil => exact ⟨FlowEq.refl o, rfl⟩
   | cons kv rest ih =>
@@ -531,7 +563,7 @@ theorem applySettings_flowEq (o : Dir α) (ord : Nat → List Nat) (k : Nat) (kv
     have hid : ¬ id = settingInitialWindowSize := by
       intro hx; simp [hx] at h
     have hrest : initCount rest = 0 := by simp [hid] at h; exact h
-    simp only [H2.applySettings, hid, if_false]
+    simp only [H2.applyEach, hid, if_false]
     split
     · have := ih { o with maxFrame := v } k hrest
       exact ⟨⟨this.1.streams, this.1.connWin, this.1.initWin⟩, this.2⟩
@@ -586,14 +618,15 @@ theorem Moves.otherEffect (o : Dir α) (ord : Nat → List Nat) (op : Op α) :
     · exact fun _ t h => h.windowUpdate (ord 0) s n
   | settings kvs =>
     refine { conn := ?_, slack := ?_, init := ?_, fifo := ?_, room := ?_ }
-    · simp only [H2.otherEffect, applySettings_connSlack, wuInc]; omega
+    · simp only [H2.otherEffect, H2.applySettings, applyEach_connSlack, wuInc]; omega
     · intro t
-      simp only [H2.otherEffect, applySettings_slack, wuInc]; omega
-    · exact applySettings_initWin o ord 0 kvs
-    · exact fun H h => h.applySettings ord 0 kvs
+      simp only [H2.otherEffect, H2.applySettings, applyEach_slack, wuInc]; omega
+    · exact (applyEach_initWin o ord 0 (inForce kvs)).trans (lastInit_inForce o.initWin kvs)
+    · exact fun H h => h.applyEach ord 0 (inForce kvs)
     · intro hn t h
       have hc : initCount kvs = 0 := by simpa [noInitOp] using hn
-      exact h.of_flowEq (applySettings_flowEq o ord 0 kvs hc).1
+      have hc' : initCount (inForce kvs) = 0 := by have := initCount_inForce_le kvs; omega
+      exact h.of_flowEq (applyEach_flowEq o ord 0 (inForce kvs) hc').1
   | data sid payload pad es => exact Moves.of_flowEq (FlowEq.refl o)
   | headers sid es eh prio frag reenc => exact Moves.of_flowEq (FlowEq.refl o)
   | continuation sid eh frag reenc => exact Moves.of_flowEq (FlowEq.refl o)
